@@ -81,6 +81,16 @@ func writeOverlay(repoDir, verifDir, dir string, pkgs map[string]bool) (string, 
 	})
 	var patterns []string
 	root := filepath.Join(verifDir, "harness")
+	// the harness sources of EVERY package are part of the build (a harness
+	// may call an exported helper of another package's harness), the replay
+	// test and the package pattern only exist for the packages replayed
+	filepath.Walk(root, func(path string, info os.FileInfo, err error) error {
+		if err == nil && !info.IsDir() && strings.HasSuffix(path, ".go") {
+			rel, _ := filepath.Rel(root, path)
+			repl[filepath.Join(repoDir, rel)] = path
+		}
+		return nil
+	})
 	var rels []string
 	for pkgPath := range pkgs {
 		rel := strings.TrimPrefix(strings.TrimPrefix(pkgPath, repoModule), "/")
